@@ -172,6 +172,10 @@ def check_transform(c):
         return None
     k_tr = sorted((e[0] if e[0] != "dt" else "ne", e[1]) for e in cc.entries_of(r_tr) if e[0] in ("ne", "su", "ou", "dt"))
     k_map = sorted((e[0] if e[0] != "dt" else "ne", e[1]) for e in cc.entries_of(r_map) if e[0] in ("ne", "su", "ou", "dt"))
+    if c.get("_kind") == "transform-ck" and any("[" in pat for pat, _n in c["tr"]) and any("<>" in (e[1] or "") for e in cc.entries_of(r_tr) + cc.entries_of(r_map) if e[0] in ("ne", "su", "ou", "dt")):
+        # a pattern that names an index and a pair of records met across positions: the compared leaves sit at
+        # prefix[i]<>[j]/field, which the pattern (written for prefix[i]/field) cannot name - outside the statement
+        return None
     if k_tr != k_map:
         return {"only_with_transform": [x for x in k_tr if x not in k_map][:4], "only_on_mapped_trees": [x for x in k_map if x not in k_tr][:4], "tr": c["tr"]}
     # reports show the original values
@@ -312,6 +316,32 @@ def leaf_edits(rng, t):
     return t + 1
 
 
+def gen_trck_case(rng):
+    """transform COMBINED WITH a composite key (fixes C08-b / C10-c): a list of keyed records under `rows`, patterns of the
+    form rows/<field> (names no dictionary entry of the tree: must change nothing), rows[i]/<field>, //<field>, */<field>
+    for key fields and payload fields; the second operand is the first with letter case / fractions / records edited,
+    permuted unless a pattern names an index"""
+    fields = rng.choice([["id"], ["id"], ["id", "k"]])
+    values = rng.choice([["a", "A", "b", "B", "Ab", "aB", "x y", "X Y"], ["a", "A", "1", 1, None, 1.5, 1.0, 2.5, 2, True], cc.KEY_VALUES])
+    l1 = cc.gen_keyed_list(rng, 1, fields, nested_keyed=False, values=values)
+    named = rng.random() < 0.3
+    l2 = copy.deepcopy(l1) if named or rng.random() < 0.3 else cc.mutate_keyed(rng, l1, fields, 1)
+    l2 = leaf_edits(rng, l2)
+    if not named:
+        rng.shuffle(l2)
+    trs = []
+    for _ in range(rng.choice([1, 1, 2])):
+        f = rng.choice(fields + fields + ["v", "name"])
+        if named:
+            pat = "rows[%d]/%s" % (rng.randrange(max(1, len(l1))), f)
+        else:
+            pat = rng.choice(["rows/" + f, "rows/" + f, "//" + f, "*/" + f, f, "/rows/" + f, cc.mixcase(rng, "//" + f)])
+        trs.append([pat, rng.choice(cc.TR_NAMES)])
+    wrap = rng.choice([lambda l: {"rows": l}, lambda l: {"rows": l, "n": 1}, lambda l: {"top": {"rows": l}}])
+    ck = fields[0] if len(fields) == 1 and rng.random() < 0.4 else fields
+    return {"mode": "k", "setters": cc.gen_setters(rng), "ck": ck, "only": [], "excl": [], "tr": trs, "a": wrap(l1), "b": wrap(l2), "_kind": "transform-ck"}
+
+
 def keyed_safe_pattern(rng, a, b):
     """patterns that do not name list indexes (in keyed mode the index part of a path depends on the pairing)"""
     names = sorted({p.split("/")[-1].split("[")[0] for p in list(cc.key_paths(a)) + list(cc.key_paths(b))}) or ["a"]
@@ -414,8 +444,14 @@ def run(ctx):
     for _ in range(n // 3):
         lst = cc.gen_list(rng, 3)
         ck = rng.choice([rng.sample(cc.KEYS, 1), rng.sample(cc.KEYS, 2), rng.choice(cc.KEYS)])
-        tr = [[rng.choice(["//" + k for k in cc.KEYS] + ["*", "", "/p/*"]), rng.choice(cc.TR_NAMES)] for _ in range(rng.choice([1, 2]))]
+        # a key field is looked up with /p[i]/<field> (fix C10-c), an item that is no record with /p
+        tr = [[rng.choice(["//" + k for k in cc.KEYS] + ["p/" + k for k in cc.KEYS[:5]] + ["p[%d]/%s" % (i, k) for i in (0, 1, 2) for k in cc.KEYS[:5]] + ["*", "", "/p/*", "/p[0]/*"]), rng.choice(cc.TR_NAMES)] for _ in range(rng.choice([1, 2]))]
         kcases.append({"list": lst, "ck": ck, "tr": tr})
+    for _ in range(n // 6):
+        fields = rng.choice([["id"], ["id", "k"]])
+        lst = cc.gen_keyed_list(rng, 1, fields, nested_keyed=False)
+        tr = [[rng.choice(["//id", "p/id", "p[0]/id", "p[1]/id", "*/k", "//k", "id"]), rng.choice(cc.TR_NAMES)] for _ in range(rng.choice([1, 2]))]
+        kcases.append({"list": lst, "ck": rng.choice([fields, fields[0]]), "tr": tr})
 
     def keys_impl(c):
         r = core.call(uc.generate_composite_keys, cc.build(c["list"]), cc.py_patarg(c["ck"]), "/p", cc.py_tr(c["tr"]))
@@ -477,6 +513,18 @@ def run(ctx):
     ctx.evaluate("transform/scalar-items", tcases, check_transform, in_known=known_class)
     ctx.extra["scalar_items_paired_across_positions"] = sum(
         1 for c in tcases[:1500] if c["mode"] == "k" and (lambda r: r.status == "ok" and len(r.res["differences"]) < len(c["a"]) + len(c["b"]))(cc.run_impl(c)))
+    # fixes C08-b / C10-c on purpose: transform combined with a composite key
+    rng = ctx.rng("transform-ck")
+    kccases = [gen_trck_case(rng) for _ in range(n // 3)]
+    ctx.correspond("cmp.run/transform-ck", kccases, cc.corr_line, cc.corr_impl)
+    ctx.evaluate("transform/ck", kccases, check_transform, in_known=known_class, nontrivial=lambda c: len(c["a"].get("rows", c["a"].get("top", {}).get("rows", []) if isinstance(c["a"].get("top"), dict) else [])) > 1)
+    ctx.extra["transform_ck"] = {
+        "cases": len(kccases),
+        "pattern_names_no_entry": sum(1 for c in kccases if any(p.lower().startswith("rows/") for p, _ in c["tr"])),
+        "pattern_names_an_index": sum(1 for c in kccases if any("[" in p for p, _ in c["tr"])),
+        "transform_changed_the_report_first_1500": sum(
+            1 for c in kccases[:1500] if (lambda r1, r0: r1.status == "ok" and r0.status == "ok" and len(r1.res["differences"]) != len(r0.res["differences"]))(cc.run_impl(c), cc.run_impl(c, override={"tr": []}))),
+    }
     # the residual class C10-b (known finding) on purpose: a transformed leaf inside a list nested in a list
     ncases = []
     for _ in range(ctx.budget(60, 400)):
